@@ -81,7 +81,7 @@ def run_r1(ctx, rule):
                 detail = "cycle only via err.kind() == ErrorKind::Interrupted"
                 # identity transfer: no field store inside the loop on that path
                 path_blocks = c.reachable_from(ff[0]) & loops[h]
-    rule.check(ok_cycle and len(cyc) <= 1, "request_more/read-cycle", "the only cycle through the read is the Interrupted retry (%s)" % detail, f.loc(rbb))
+    rule.check(ok_cycle and len(cyc) == 1, "request_more/read-cycle", "there is exactly one cycle through the read and it is the Interrupted retry (%s)" % detail, f.loc(rbb))
     # (b2) no field store on the Interrupted arm (retry without touching any state)
     if cyc:
         h = cyc[0]
